@@ -8,6 +8,9 @@ pub mod anyhow {
 /// R3: `bail!`, `anyhow!(..)` produce an opaque error value
 #[verifier::external_body]
 pub fn verif_err() -> anyhow::Error { unimplemented!() }
+/// R3: `anyhow::Error::msg(e)`
+#[verifier::external_body]
+pub fn verif_err_from<E>(e: E) -> anyhow::Error { unimplemented!() }
 /// R3: `format!(..)` produces an opaque string
 #[verifier::external_body]
 pub fn verif_string() -> String { unimplemented!() }
